@@ -148,6 +148,8 @@ def run_leg(ck, binp, tier, ids=None, replay=None):
 
     hist = ticks = nontrivial = drift = jumps = slices = slice_holds = slice_failed = slice_failed_unpredicted = wl = aborted = rewinds = 0
     slice_samples = []
+    twins = {}
+    twin_pairs = 0
     rels = {}
     sample = None
     for cfg, salt, cases in runs:
@@ -179,6 +181,16 @@ def run_leg(ck, binp, tier, ids=None, replay=None):
             for s in r.get("slice_failed_samples", []):
                 if len(slice_samples) < 3:
                     slice_samples.append({"history": sig, "salt": salt, **s})
+            # an aborted transaction leaves no trace, decided on the real outcome alone: histories that differ only in
+            # aborted transactions must have bit-identical commit chains (tx numbers are not part of a commit id)
+            if not rewind:
+                twin = (salt, c["preName"], tuple(",".join(f"{x['r']}|{x['w']}|{x['n']}" for x in st["cands"]) for st in c["steps"] if st["kind"] == "tick"))
+                seen = twins.setdefault(twin, (r["commits"], sig, c))
+                if seen[0] != r["commits"]:
+                    ck.violation(f"{P}abort_changes_history:{sig}", f"commit chains differ between {sig} and {seen[1]}: {r['commits']} vs {seen[0]}",
+                                 {"leg": "ledger", "cfg": cfg, "salt": salt, "cases": [c, seen[2]]})
+                    continue
+                twin_pairs += seen[1] != sig
             if r.get("drift"):
                 drift += 1
                 if len([n for n in ck.notes if "ledger_model_drift" in n]) < 5:
@@ -212,7 +224,7 @@ def run_leg(ck, binp, tier, ids=None, replay=None):
     ck.cov["model_drift_cases"] = ck.cov.get("model_drift_cases", 0) + drift
     ck.cov["ledger"] = {
         "cfgs": [f"{cfg}@{salt or '0'}" for cfg, salt, _ in runs], "histories": hist, "committed_ticks": ticks,
-        "histories_with_aborted_tx": aborted, "histories_with_rewind": rewinds, "engine_runs": hist * 4, "jump_to_tick_calls": jumps,
+        "histories_with_aborted_tx": aborted, "compared_with_abort_free_twin": twin_pairs, "histories_with_rewind": rewinds, "engine_runs": hist * 4, "jump_to_tick_calls": jumps,
         "worldline_patch_applies": wl, "nontrivial_histories": nontrivial, "model_drift_histories": drift,
         "distinct_commit_ids": sum(len(R["commit"].bwd) for R in rels.values()),
         "distinct_state_roots": sum(len(R["root"].bwd) for R in rels.values()),
